@@ -75,7 +75,7 @@ func (self *Interpreter) letStatement(node ast.AnalyzedLetStatement) *value.Inte
 	newValue, i := value.DeepCast(*rhsVal, node.OptType, node.Range, false)
 	if i != nil {
 		// A failed cast is an ordinary, catchable exception (like on the VM).
-		return value.NewThrowInterrupt(node.Range, "Cast error "+(*i).Message())
+		return value.NewThrowInterrupt(node.Range, "Cast error"+(*i).Message())
 	}
 
 	// if i := self.valueIsCompatibleToType(*rhsVal, node.OptType, node.Range); i != nil {
